@@ -3,6 +3,7 @@
 import json, glob, os
 VERIF = os.path.dirname(os.path.dirname(os.path.abspath(__file__)))
 rows = []
+hist = json.load(open(os.path.join(VERIF, "seeded", "HISTORY.json"))) if os.path.exists(os.path.join(VERIF, "seeded", "HISTORY.json")) else {}
 for f in sorted(glob.glob(os.path.join(VERIF, "seeded", "*", "meta.json"))):
     m = json.load(open(f))
     conf = m.get("confirmation", {}).get("confirmed")
@@ -16,7 +17,7 @@ for f in sorted(glob.glob(os.path.join(VERIF, "seeded", "*", "meta.json"))):
     elif first:
         pred = first.split(":")[0][:60]
     rows.append("| %s | %s | %s | %s | %s | %s |" % (m.get("id"), m.get("property"), (m.get("needs") or "")[:160].replace("|", "/").replace("\n", " "),
-                "yes" if conf else "NO", ", ".join(caught) or "-", pred.replace("|", "/")))
-print("| seeded change | property | needs | confirmed | caught by (quick tier) | first failing predicate |")
+                "yes" if conf else "NO", (", ".join(caught) or "**missed**") + ("; not by " + ", ".join(missed) if missed and caught else ""), pred.replace("|", "/") + (" - " + hist[m.get("id")] if m.get("id") in hist else "")))
+print("| seeded change | property | needs | confirmed | caught by (quick tier) | first failing predicate / history |")
 print("|---|---|---|---|---|---|")
 print("\n".join(rows))
